@@ -14,6 +14,7 @@ pub mod c09;
 pub mod bmp_sm;
 pub mod c17;
 pub mod ingress;
+pub mod escape;
 pub mod codec;
 pub mod http;
 pub mod rib;
